@@ -216,7 +216,7 @@ def native_check(c, registry, args):
                 info[f'clause-error:{name}'] = repr(e)
             if not ok:
                 failures.append((f'{short}/post/{name}', 'postcondition false'))
-        if c.functional:
+        if c.result_fn is not None:
             try:
                 spec_val = c.result_fn(*_pick(c.result_fn, ns_old, order))
                 from .speclib import same
